@@ -394,6 +394,7 @@ Definition op_ok (ex tch : bool) (o : op) : Prop :=
   | OGetCommitted _ _ => False
   | OSuicide _ => ex = false
   | OAddFT _ n => n <> 0 \/ tch = true
+  | OPrepare _ => False            (* a transaction boundary is not journalled: only between brackets *)
   | _ => True
   end.
 
@@ -478,4 +479,5 @@ Proof.
     pose proof (rtp_ensure ex tch true a s Hw) as H1. eapply rtp_trans; [exact H1|].
     pose proof (rtp_getdata ex tch a ftkey _ (rtp_wf _ _ _ _ H1)) as H2.
     rewrite <- ft_read_fst in H2. destruct (ft_read a _). exact H2.
+  - destruct Hok.
 Qed.
